@@ -121,6 +121,34 @@ func InlineSingleUse(repo string, overlay map[string][]byte, first *Prog, maxRou
 	if len(done) == 0 {
 		return nil, nil
 	}
+	// branches on the constant arguments the expanded helpers were called with are decided (prune.go)
+	for pass := 0; pass < 3; pass++ {
+		q, err := Load(repo, cur, "", false)
+		if err != nil {
+			break
+		}
+		files, what := pruneConstBranches(q, cur)
+		if len(what) == 0 {
+			break
+		}
+		next := map[string][]byte{}
+		for k, v := range cur {
+			next[k] = v
+		}
+		for k, v := range files {
+			next[k] = v
+		}
+		if _, err := Load(repo, next, "", false); err != nil {
+			if os.Getenv("FCHECK_DEBUG") != "" {
+				fmt.Println("constant branches: rewritten program does not load, dropped:", err)
+			}
+			break
+		}
+		cur = next
+		for _, w := range what {
+			done = append(done, "constant branch: "+w)
+		}
+	}
 	// small structs that only carried several results from a helper to its caller become plain locals (sroa.go)
 	if q, err := Load(repo, cur, "", false); err == nil {
 		if files, split := sroaStructs(q, cur); len(split) > 0 {
